@@ -94,6 +94,24 @@ func (propC12) Gen(r *Rng, idx int, tier string) *Scenario {
 			cands[ur.Intn(len(cands))].Groups[0].Name = ""
 		}
 	}
+	if fr := r.Fork("foldnames"); fr.Chance(1, 6) {
+		// two ini-names of one section that differ, but only just: equal under Unicode
+		// case folding, not equal when lower-cased
+		bySec := map[string][]optInfo{}
+		for _, oi := range optInfos(sc.Decl) {
+			if !oi.O.NoIni && !oi.O.Hidden && !isFuncKind(oi.O.Kind) {
+				bySec[oi.Section] = append(bySec[oi.Section], oi)
+			}
+		}
+		for _, sec := range sortedKeys(bySec) {
+			if xs := bySec[sec]; len(xs) >= 2 {
+				pair := fr.Pick2([]int{0, 1})
+				names := [][2]string{{"timeout-\u00b5s", "timeout-\u03bcs"}, {"\u017fize", "size"}}[pair]
+				xs[0].O.IniName, xs[1].O.IniName = names[0], names[1]
+				break
+			}
+		}
+	}
 	sc.World = WorldSpec{Cols: 80, Now: 1700000000}
 	p := sc.C12
 	pr := r.Fork("pre")
